@@ -374,6 +374,38 @@ pub fn generic<T: Val, R: ReadableVec<usize, T>>(
             });
             cx.expect_opt(&api("max_dyn"), &what, got, w);
         }
+        // the remaining provided methods (thin wrappers, but each is a public entry point)
+        if let Some(got) = cx.call(&api("max_at"), || v.max_at(from, to)) {
+            let w = want.iter().copied().fold(None, |a: Option<T>, x| match a {
+                Some(c) if c >= x => Some(c),
+                _ => Some(x),
+            });
+            cx.expect_opt(&api("max_at"), &what, got, w);
+        }
+        if let Some(got) = cx.call(&api("min_dyn"), || v.min_dyn(from, to)) {
+            let w = want.iter().copied().fold(None, |a: Option<T>, x| match a {
+                Some(c) if c <= x => Some(c),
+                _ => Some(x),
+            });
+            cx.expect_opt(&api("min_dyn"), &what, got, w);
+        }
+        if let Some(got) = cx.call(&api("collect_range_into_at"), || {
+            let mut a = vec![T::make(424242)];
+            v.collect_range_into_at(from, to, &mut a);
+            a
+        }) {
+            cx.expect_eq(&api("collect_range_into_at"), &what, &got, &want);
+        }
+        if let Some(got) = cx.call(&api("try_for_each_range_at"), || {
+            let mut a = Vec::new();
+            let r: Result<(), ()> = v.try_for_each_range_at(from, to, |x| {
+                a.push(x);
+                Ok(())
+            });
+            r.map(|_| a).unwrap_or_default()
+        }) {
+            cx.expect_eq(&api("try_for_each_range_at"), &what, &got, &want);
+        }
     }
     // whole-vector conveniences
     let all = dense(0, len);
@@ -410,6 +442,9 @@ pub fn generic<T: Val, R: ReadableVec<usize, T>>(
         if let Some(got) = cx.call(&api("collect_signed_range"), || v.collect_signed_range(f, t)) {
             cx.expect_eq(&api("collect_signed_range"), &format!("{f:?}..{t:?}"), &got, &want);
         }
+        if let Some(got) = cx.call(&api("collect_signed_range_dyn"), || v.collect_signed_range_dyn(f, t)) {
+            cx.expect_eq(&api("collect_signed_range_dyn"), &format!("{f:?}..{t:?}"), &got, &want);
+        }
     }
     // index-addressed reads
     let at = |i: usize| -> Option<T> { contents.get(i).copied().flatten() };
@@ -443,6 +478,13 @@ pub fn generic<T: Val, R: ReadableVec<usize, T>>(
         let want: Vec<T> = idx.iter().filter_map(|i| at(*i)).collect();
         if let Some(got) = cx.call(&api("read_sorted_at"), || v.read_sorted_at(&idx)) {
             cx.expect_eq(&api("read_sorted_at"), &format!("indices {idx:?}"), &got, &want);
+        }
+        if let Some(got) = cx.call(&api("read_sorted_into_at"), || {
+            let mut a = Vec::new();
+            v.read_sorted_into_at(&idx, &mut a);
+            a
+        }) {
+            cx.expect_eq(&api("read_sorted_into_at"), &format!("indices {idx:?}"), &got, &want);
         }
     }
 }
